@@ -75,3 +75,9 @@ CHECKS["C09"] = {
   "text": "2-10 operations per program: adds by tick (default price; explicit tick on the lower / upper bound, inside, +1, -1) and by price, partial / full removes with and without collect, collects, buy, sell, swap either way, even_rebalance, add_liquidity_by_value (wide ranges around, above and below the price; whole balance or a value), estimate_amount, estimate_liquidity (in and out of range), get_position_status (amounts, values, H / L / P), get_market_balance, bars with mirrored off-grid tick paths and volumes (fee accrual incl. crossings); decimals {6,8,18}^2, three fee tiers, price region below / inside / above. Exact operations at 1e-12 of the account size, liquidity at 1e-9 + 4 units, estimate helpers at max(0.1%, 1.5 / distance to the nearest bound in ticks), add_liquidity_by_value at max(1%, 20 / distance) and by value; same exception class required in both orientations. Sampled exploration.",
   "note": "A relation between two runs of the same code: errors that are symmetric in both orientations are invisible to it (they are C07 / C08's subject). Closes exactly on a range bound are excluded for bars (half-open tick ranges do not mirror); explicit on-bound prices are used for exact operations.",
 }
+
+CHECKS["C14"] = {
+  "technique": "Hypothesis generated price / normalisation-factor paths and vault programs (with and without LP collateral) on the real SqueethMarket + oSQTH/WETH pool, validated step by step against a reference of the statement's rules",
+  "text": "1-14 timestamped minute rows (TWAP window live, shorter than 7 rows at the start), ETH / oSQTH / norm-factor paths with jumps and flats; programs of open / deposit / mint at 0..120% of the 1.5x limit (incl. 1 +- 1e-7), burn-and-withdraw fractions, LP positions minted around the price, lent to and taken back from vaults; per step: TWAP = geometric mean of the trailing <= 7 rows (1e-9), accepted mint / withdrawal / LP withdrawal => collateral (ETH + LP at index price) >= 1.5 x debt and >= 0.5 ETH, mints with 0.1% margin accepted, exact oSQTH / ETH movements between wallet and vault, no negative amounts; at bar end: liquidated iff below 1.5x, LP redeemed first (WETH to collateral, oSQTH burned, excess to wallet, 2% bounty limited to the collateral), then half / all rule at TWAP oSQTH x 1.1 capped at the collateral, wallet WETH untouched. Sampled exploration.",
+  "note": "Float TWAP: decisions within 1e-7 of a limit are not asserted. LP token amounts are read from the pool market's position view (C07). The bounty cap is the repaired behaviour (the contract would revert there).",
+}
